@@ -270,10 +270,21 @@ func cmdCheck(args []string) int {
 		}
 		return false
 	}
+	// (the order dependence is recorded once, under C07; for any other property a recipe of that
+	// shape is decided by the property's own oracle on the implementation's output — the model's
+	// output for ONE order is not a reference there)
+	d7Recorded := func(kn *Known) bool {
+		for _, k := range kn.Findings {
+			if k.Shape == "dict-registers-imports-in-map-order" {
+				return true
+			}
+		}
+		return false
+	}
 	var openDis []Disagreement
 	explained := 0
 	for _, d := range dis {
-		if d.Level != "callbacks" && hasMultiDictQual(d.Case) && knownShape("dict-registers-imports-in-map-order") {
+		if d.Level != "callbacks" && hasMultiDictQual(d.Case) && (knownShape("dict-registers-imports-in-map-order") || d7Recorded(kn)) {
 			explained++
 			continue
 		}
